@@ -97,6 +97,53 @@ def _purity_job(args):
     return obs
 
 
+def _object_rounds(n_rec, rounds):
+    """The same two lists of Record objects diffed `rounds` times in this process, the allocator disturbed in between."""
+    import gc
+    import graphtage.printer as gp
+    from graphtage import pydiff
+    from harness.cli import _Stream
+    from harness.watchdog import Expired, deadline
+
+    class Record:
+        def __init__(self, n, name):
+            self.n, self.name = n, name
+
+        @property
+        def rows(self):
+            return [[self.n, self.n + 1], [self.name]]      # a fresh nested list on every access
+
+    a = [Record(i, "r%d" % i) for i in range(n_rec)]
+    b = [Record(i + (1 if i == 1 else 0), "r%d" % i) for i in range(n_rec)]
+    obs = []
+    keep = []
+    for k in range(rounds):
+        # disturb the allocator: keep some lists alive, free others
+        junk = [[[j], [j, j]] for j in range(13 * (k % 5) + k)]
+        if k % 2:
+            keep.append(junk[::3])
+        del junk
+        if k % 3 == 0:
+            keep.clear()
+            gc.collect()
+        o = {"k": "pydiff of %d records with computed members" % n_rec, "v": "", "raised": False, "how": "round %d" % (k + 1)}
+        try:
+            with deadline(20.0):
+                out = _Stream()
+                pr = gp.Printer(out, ansi_color=False, quiet=True)
+                ta, tb = pydiff.build_tree(a), pydiff.build_tree(b)
+                d = ta.diff(tb)
+                with pr:
+                    pydiff.PyDiffFormatter.DEFAULT_INSTANCE.print(pr, d)
+                o["v"] = "%s/%s" % (digest(out.getvalue()), d.edited_cost())
+        except Expired:
+            o["raised"], o["why"] = True, "timeout"
+        except Exception as ex:
+            o["raised"], o["why"] = True, "%s: %s" % (type(ex).__name__, str(ex)[:120])
+        obs.append(o)
+    return obs
+
+
 def _deep_job(depths):
     """The same operation on the same deep documents before and after an unrelated comparison of even deeper ones:
     whatever the outcome is (a result, or RecursionError at the interpreter's default limit), it must be the same."""
@@ -271,6 +318,22 @@ def run():
                 continue
             sig = {"clause": v["clause"], "what": o["k"], "when": o["how"]}
             chk.violation(sig, {"case": case}, "%s: %s changed %s (case %s)" % (o["k"], o["k"], o["how"], json.dumps(case, default=str)[:300]))
+    # (c) Python objects whose members are computed afresh on every access (a property returning a new nested list): the
+    # same pair diffed again and again in one process while the allocator's state is disturbed - temporaries die, addresses
+    # are re-used; nothing of that is an input
+    corpus._quiet_env()          # (runs in this process: the progress bars of diff() go to a null stderr)
+    ogroups = []
+    for n_rec in (2, 3, 6, 9, 14):
+        ogroups.append(_object_rounds(n_rec, 30 if t == "quick" else 80))
+    overdicts, ost = functional.validate_groups(ogroups, name="C07-objects")
+    chk.add_trace_stats(ost, "FunctionalTrace", sum(len(g) for g in ogroups))
+    for g, v in zip(ogroups, overdicts):
+        for o in g:
+            chk.count(("objects", g[0]["k"], o["how"]))
+        if v["v"] != "ACCEPT":
+            o = g[v["step"] - 1]
+            chk.violation({"clause": v["clause"], "what": "python-objects", "when": "repetition"}, {"objects": g[0]["k"]},
+                          "%s: %s gives %s, the first round gave %s" % (g[0]["k"], o["how"], (o["v"] or o.get("why", ""))[:200], g[0]["v"][:100]))
     chk.sample({"case": cases[0], "observations": [{k: o[k] for k in ("k", "how", "v")} for o in pur[0]][:8]})
     functional.model_check(chk)
     chk.rule = ("cases = (a) %d pairs of JSON files biased to mappings with 4-9 unshared keys x 2-3 option sets (incl. "
